@@ -71,7 +71,7 @@ PROFILE = gf.make_profile(
     dep_index=20, perfect_nest=15, helpers=(0, 1), nstmts=(3, 7),
     full_loops=35)
 
-VARIANTS = ["data", "data", "data", "kernels>data", "data>kernels"]
+VARIANTS = ["data", "data>kernels", "kernels>data", "data"]
 CLAUSES = ("copyin", "copyout", "copy")
 KNOWN_BUCKET = "acc-data:copyout-partial-write"
 
@@ -106,7 +106,11 @@ def pick_region(routine, region, normalised=False):
     # schedule 0 is the routine itself (favoured by the strategy)
     sidx = spick % len(scheds)
     kids = scheds[sidx].children
-    start = start % len(kids)
+    if sidx == 0 and len(kids) > 2 and start % 8:
+        # mostly skip the two scalar prologue statements (t = 0.0, it = 0)
+        start = 2 + start % (len(kids) - 2)
+    else:
+        start = start % len(kids)
     length = 1 + length % (len(kids) - start)
     return (sidx, start, length), kids[start:start + length]
 
@@ -623,7 +627,7 @@ def run(ctx):
         prog = draw(gf.programs(PROFILE))
         spick = draw(st.sampled_from([0, 0, 0, 0, 0, 0, 1, 2, 3, 4, 5]))
         start = draw(st.integers(0, 9))
-        length = draw(st.sampled_from([0, 1, 1, 2, 2, 3, 4, 6]))
+        length = draw(st.sampled_from([1, 0, 2, 3, 1, 2, 4, 6]))
         return (prog, (spick, start, length),
                 draw(st.sampled_from(VARIANTS)))
 
